@@ -124,6 +124,7 @@ func urlRoundTrip(c *vk.Ctx) {
 		check([]fv{s}, false)
 		check([]fv{s}, true)
 	}
+	restoreFromOtherView(c, fields)
 	if c.Thorough() {
 		for i, a := range singles {
 			for _, b := range singles[i+1:] {
@@ -131,6 +132,66 @@ func urlRoundTrip(c *vk.Ctx) {
 					continue
 				}
 				check([]fv{a, b}, true)
+			}
+		}
+	}
+}
+
+// restoreFromOtherView: a configuration saved with field=v is selected from the
+// menu of a page that shows field=w (every ordered pair of accepted values of
+// the field, including values of which the other is a proper prefix: 7/70,
+// 0/0.25, a/ab): following the link must give the saved value, whatever the
+// page showed.
+func restoreFromOtherView(c *vk.Ctx, fields [][4]string) {
+	menu := append(append([]string{}, valueMenu...), "70", "ab", "0.2", "tr")
+	for _, f := range fields {
+		if f[2] != "true" || f[1] == "" {
+			continue
+		}
+		var ok []string
+		for _, v := range menu {
+			driver.VerifReset()
+			if v != "" && driver.VerifConfigure(f[0], v) == nil {
+				ok = append(ok, v)
+			}
+		}
+		for _, v := range ok {
+			for _, pv := range ok {
+				if v == pv {
+					continue
+				}
+				c.Eval()
+				resetFile()
+				driver.VerifReset()
+				w := witness{Field: f[0] + "=" + v, Value: "page shows " + f[1] + "=" + pv}
+				if err := driver.VerifSetConfig(fname(), url.URL{Path: "/saveconfig", RawQuery: url.Values{"config": {"A"}, f[1]: {v}}.Encode()}); err != nil {
+					continue
+				}
+				stored, err := driver.VerifReadSettings(fname())
+				if err != nil || stored["A"] == nil {
+					continue
+				}
+				var link string
+				for _, e := range driver.VerifConfigMenuOn(fname(), url.Values{f[1]: {pv}}.Encode()) {
+					if e[0] == "A" {
+						link = e[1]
+					}
+				}
+				mu, err := url.Parse(link)
+				if link == "" || err != nil {
+					c.Violationf("url-roundtrip/no-menu-entry", w, "menu link %q: %v", link, err)
+					continue
+				}
+				driver.VerifReset()
+				restored, _, err := driver.VerifURLRoundTrip(mu.Query())
+				if err != nil {
+					c.Violationf("url-roundtrip/restore-error", w, "applying %q: %v", link, err)
+					continue
+				}
+				if got, want := restored[f[0]], stored["A"][f[0]]; got != want {
+					c.Violationf("url-roundtrip/restored-from-other-view/"+f[0], w, "saved %s=%q; selected from a page showing %s=%q through %q: restored as %q", f[0], want, f[1], pv, link, got)
+				}
+				c.Count("url/restore-from-other-view", 1)
 			}
 		}
 	}
